@@ -5,5 +5,5 @@ CONSTANTS
   Universe = "full"
 VIEW View
 INVARIANTS InvOneActive
-PROPERTIES PropIssue PropSerial PropRootSetAtomic PropReconf
+PROPERTIES PropIssue PropSerial PropRootSetAtomic PropReconf PropRotate
 CHECK_DEADLOCK FALSE
